@@ -1256,7 +1256,13 @@ func sfeGenCase(r *Rng, v2 bool, seqno int) *sfeCase {
 					if bad && mode == 1 {
 						lh = r.Bytes(32) // a signature for some other leaf
 					}
+					if r.Chance(3) {
+						lh = r.Bytes(31) // not a leaf hash
+					}
 					op = sfeOp{kind: "TS", k: i, pk: pub, sig: sig, leaf: lh}
+					if r.Chance(8) {
+						signOps = append(signOps, op) // the same (key, leaf) twice
+					}
 				}
 				c.orc = append(c.orc, sfeOrc{i, pub, sig, !invalid})
 			} else {
